@@ -161,19 +161,88 @@ pub struct HFile {
     pub slot: usize,
 }
 
+/// Append `buf[..n]` to the slot; loop-free for the sizes the harnesses use (`n <= 3`).
 fn append(slot: usize, buf: &[u8], n: usize) {
-    let s = st();
-    let mut i = 0;
-    while i < n {
-        let w = s.written[slot];
-        if w < CAP {
-            s.data[slot][w] = buf[i];
-            s.written[slot] = w + 1;
-        } else {
-            s.overflowed = true;
-        }
-        i += 1;
+    if n > 3 || n > buf.len() {
+        st().overflowed = true;
+        return;
     }
+    if n > 0 {
+        put(slot, buf[0]);
+    }
+    if n > 1 {
+        put(slot, buf[1]);
+    }
+    if n > 2 {
+        put(slot, buf[2]);
+    }
+}
+
+fn put(slot: usize, b: u8) {
+    let s = st();
+    let w = s.written[slot];
+    if w < CAP {
+        s.data[slot][w] = b;
+        s.written[slot] = w + 1;
+    } else {
+        s.overflowed = true;
+    }
+}
+
+/// The 16 content bytes of a slot packed little-endian (byte `i` of the file = bits `8i..8i+8`).
+pub fn content(slot: usize) -> u128 {
+    u128::from_le_bytes(st().data[slot])
+}
+
+/// The low `n` bytes of `x`.
+pub fn low_bytes(x: u128, n: usize) -> u128 {
+    if n >= 16 {
+        x
+    } else {
+        x & ((1u128 << (8 * (n as u32))) - 1)
+    }
+}
+
+/// Expected file content, packed like `content`.
+#[derive(Clone, Copy)]
+pub struct Exp {
+    pub v: u128,
+    pub n: usize,
+}
+
+impl Exp {
+    pub fn new() -> Self {
+        Exp { v: 0, n: 0 }
+    }
+    /// append the low `n` bytes of `bytes`
+    pub fn push(&mut self, bytes: u128, n: usize) {
+        if self.n + n <= 16 && self.n < 16 {
+            self.v |= low_bytes(bytes, n) << (8 * (self.n as u32));
+            self.n += n;
+        } else if n > 0 {
+            self.n = usize::MAX / 2;
+        }
+    }
+    /// `content(slot)[..written] == self[..written]` and `written <= self.n`
+    pub fn has_prefix_content(&self, slot: usize) -> bool {
+        let w = st().written[slot];
+        w <= self.n && w <= CAP && low_bytes(content(slot), w) == low_bytes(self.v, w)
+    }
+}
+
+/// Pack up to 3 bytes.
+pub fn pack<const N: usize>(b: &[u8; N]) -> u128 {
+    let mut v = 0u128;
+    if N > 0 {
+        v |= b[0] as u128;
+    }
+    if N > 1 {
+        v |= (b[1] as u128) << 8;
+    }
+    if N > 2 {
+        v |= (b[2] as u128) << 16;
+    }
+    v
 }
 
 impl VFile for HFile {
@@ -332,17 +401,15 @@ impl VFilesystem for HFs {
     }
 }
 
-/// Install a symbolic single-fault plan: fault index < `n_calls` or no fault at all.
+/// Install a single-fault plan of the given kind: symbolic fault index < `n_calls`, or no fault at all.
 #[cfg(kani)]
-pub fn sym_fault(n_calls: usize) {
+pub fn sym_fault(kind: u8, n_calls: usize) {
     let s = st();
     let at: usize = kani::any();
     kani::assume(at <= n_calls);
     s.fault_at = if at == n_calls { NO_FAULT } else { at };
-    let k: u8 = kani::any();
-    kani::assume(k <= K_INTR);
-    s.fault_kind = k;
+    s.fault_kind = kind;
     let j: usize = kani::any();
-    kani::assume(j <= 3);
+    kani::assume(j >= 1 && j <= 2);
     s.fault_j = j;
 }
